@@ -96,18 +96,40 @@ def atoms(fn, cond, pol):
     return out
 
 
-def norm(fn, atom, pol):
+def _cval(fn, x):
+    """folded integer value of an operand: the first node of its cast chain that carries one (a named constant counts)"""
+    n = fn.N(x)
+    for _ in range(12):
+        if n.get('v') is not None:
+            return n['v']
+        if (n['k'].endswith('CastExpr') or n['k'] in ('ParenExpr', 'ExprWithCleanups', 'MaterializeTemporaryExpr', 'ConstantExpr')) and n.get('c'):
+            n = fn.N(n['c'][0])
+            continue
+        break
+    if n['k'] == 'DeclRefExpr' and n.get('vid') in fn.const_init:
+        m = fn.N(fn.const_init[n['vid']])
+        for _ in range(8):
+            if m.get('v') is not None:
+                return m['v']
+            if m.get('c') and (m['k'].endswith('CastExpr') or m['k'] in ('ParenExpr', 'ExprWithCleanups')):
+                m = fn.N(m['c'][0])
+                continue
+            break
+    return None
+
+
+def norm(fn, atom, pol, resolve=False):
     n = fn.strip(atom)
     if n['k'] == 'BinaryOperator' and n['op'] in FLIP:
         op = n['op'] if pol else NEG[n['op']]
-        a, b = fn.render(fn.strip_all_casts(n['c'][0])), fn.render(fn.strip_all_casts(n['c'][1]))
-        av, bv = fn.strip_all_casts(n['c'][0]).get('v'), fn.strip_all_casts(n['c'][1]).get('v')
+        a, b = fn.render(fn.strip_all_casts(n['c'][0]), resolve=resolve), fn.render(fn.strip_all_casts(n['c'][1]), resolve=resolve)
+        av, bv = _cval(fn, n['c'][0]), _cval(fn, n['c'][1])
         if av is not None:
             a = str(av)
         if bv is not None:
             b = str(bv)
         return (a, op, b)
-    r = fn.render(fn.strip_all_casts(n))
+    r = fn.render(fn.strip_all_casts(n), resolve=resolve)
     return (r, '!=' if pol else '==', '0')
 
 
@@ -115,7 +137,11 @@ def facts_at_block(fn, block):
     out = []
     for cond, pol in edge_guards(fn, block):
         for a, p in atoms(fn, cond, pol):
-            out.append(norm(fn, a, p) + (fn.loc(a) if 'ln' in a else '',))
+            f1 = norm(fn, a, p) + (fn.loc(a) if 'ln' in a else '',)
+            out.append(f1)
+            f2 = norm(fn, a, p, resolve=True) + (fn.loc(a) if 'ln' in a else '',)
+            if f2[:3] != f1[:3]:
+                out.append(f2)          # the same fact with const locals replaced by their initialisers
     return out
 
 
@@ -179,8 +205,7 @@ def edges_with(fn, pred):
             continue
         for idx, pol in ((0, True), (1, False)):
             for a, p in atoms(fn, c, pol):
-                f = norm(fn, a, p)
-                if pred(f):
+                if pred(norm(fn, a, p)) or pred(norm(fn, a, p, resolve=True)):
                     out.add((b, idx))
     return out
 
